@@ -971,7 +971,7 @@ fn run_case(out: &mut Out, rng: &mut Rng, world: &World, n_ops: usize, clean: bo
     if big {
         // large pools: 30+ entries, chains growing up to the ancestor limit, RBF on, size limit near 35-45 entries
         max_anc = *rng.pick(&[6u64, 10, 25]);
-        max_size = *rng.pick(&[1_000_000u64, 11_000, 9_000]);
+        max_size = *rng.pick(&[1_000_000u64, 1_000_000, 14_000]);
         min_rbf = 1500;
     }
     let cfg = Cfg { max_anc, max_size, min_fee_rate: 1000, min_rbf_rate: min_rbf };
